@@ -39,7 +39,7 @@ Init == l = 1 /\ hs = <<>>
 Labels(e) ==
   IF e.row.shape = "random"
   THEN [path |-> e.real.path, pid |-> e.real.pid, extra |-> e.real.extra, actor |-> e.real.actor, mode |-> e.real.mode,
-        wire |-> e.real.wire, backend |-> e.real.backend, valid |-> FALSE]
+        wire |-> e.real.wire, backend |-> e.real.backend, conf |-> e.real.conf, valid |-> FALSE]
   ELSE e.row.lab
 
 TraceCall ==
@@ -62,11 +62,10 @@ TraceCall ==
      IN \* ---- binding of the executor to the abstract row
         /\ Chk("harness_labels", e.row.shape = "random" \/
                  /\ e.real.path = lab.path /\ e.real.pid = lab.pid /\ e.real.extra = lab.extra /\ e.real.mode = lab.mode
-                 /\ e.real.wire = lab.wire /\ e.real.backend = lab.backend
+                 /\ e.real.wire = lab.wire /\ e.real.backend = lab.backend /\ e.real.conf = lab.conf
                  /\ (r.principal => e.real.actor = lab.actor)
                  /\ ShapeApplies(t, r.shape) /\ lab = ShapeLab(t, r.actor, r.shape))
-        /\ Chk("harness_victims", /\ e.victim.present = (t \in PidTools /\ t # "instance_start")
-                                  /\ (e.fvictim.present => e.victim.present))
+        /\ Chk("harness_victims", e.victim.present = (t \in PidTools /\ t # "instance_start" /\ lab.conf # "nopid"))
         \* ---- role / flag / principal / actor gate: the call ran only if allowed
         /\ Chk("class", want = "any" \/ obs = want)
         /\ Chk("class_iserror", (e.obs = "refused") = (e.is_error \/ e.rpc_error))
@@ -103,6 +102,9 @@ TraceCall ==
         /\ Chk("cfg_content", (cfgChanged /\ t = "config_apply") => (e.cfg_after = e.content_sha /\ e.content_ok))
         /\ Chk("cfg_preview", lab.mode = "preview_only" => (~cfgChanged /\ Len(wr) = 0))
         /\ Chk("foreign_untouched", Len(e.foreign_changed) = 0)
+        \* a server without a configured config path / db path has no file it may write or queue it may change
+        /\ Chk("cfg_unconfigured", lab.conf = "nocfg" => (~cfgChanged /\ Len(wr) = 0))
+        /\ Chk("db_unconfigured", lab.conf = "nodb" => e.db_after = e.db_before)
         \* ---- confinement of runtime-control tools: only the configured pid file, only process-control tools act
         /\ Chk("pid_confined", e.fvictim.present => (e.fvictim.alive /\ e.fvictim.hups = 0))
         /\ Chk("proc_actor", /\ e.spawned => t = "instance_start"
